@@ -121,6 +121,29 @@ statement only speaks about the case where the clock provides its readings, so t
     first, one per enabled span, none per rejected one; the ambient context is empty afterwards.
     Signatures `C05:macro:completed-span:through-rejected-middle:<what>` (`under-rejected-root`,
     `nested-on-default-ctxt` for the control shapes).
+    The same chains also run with the default context held BEHIND A FORWARDING WRAPPER: one runtime per
+    worker thread whose context is a `Box<dyn ErasedCtxt>` over `ThreadLocalCtxt`, `Arc<..>`, `Box<..>`,
+    `Box / Arc<dyn ErasedCtxt (+ Send + Sync)>`, `Option<..>`, `&..`, `AssertInternal<..>` and stacks of
+    two of them (14 wrappers; signatures end in `:ctxt=<wrapper>`). Every `Ctxt` method has to reach the
+    context underneath; a wrapper that leaves one to the trait's provided default is a different context
+    (a nested span's frame keeps its parent's `span_id`).
+
+(g) **a plain nesting on runtimes whose context TYPE is a forwarding wrapper**: outer `info_span` ->
+    (`Frame::push`) -> `span` with `guard:` -> `debug_span`, sync and async, normal / innermost panic, on
+    `Runtime<.., C, ..>` for C = `Arc<ThreadLocalCtxt>`, `Box<ThreadLocalCtxt>`, `Box / Arc<dyn ErasedCtxt +
+    Send + Sync>`, `Option<..>`, `&..`, `AssertInternal<..>`, `Arc<Box<..>>`, `Option<Arc<dyn ..>>`; per
+    completion event a fresh span id, `span_parent` = the enclosing span, the root's trace id, the frames
+    above, the pushed ambient property, `lvl` / `err` per exit; empty context afterwards.
+    Signatures `C05:macro:completed-span:nested-on-wrapped-ctxt:<what>:ctxt=<wrapper>`.
+
+(a') **the default completion object through its OWN builders**: `completion::default(emitter, ctxt)`
+    put through `with_lvl / with_panic_lvl / with_tpl` 0-5 times in any order (`L` = `emit::Level` or
+    `&str`), handed over at `SpanGuard::new`, by `with_completion` or by `complete_with` (by value, by
+    reference, type-erased), the span ending by drop, explicit complete, or panic unwinding (guard dropped
+    by the unwinding / completed from a destructor during it). One event; every setting has its LAST-SET
+    value whatever setters ran after it: `lvl` = last `with_lvl` and no `err` on a normal end, `lvl` =
+    last `with_panic_lvl` (error if never set) + `err` on a panic end, template + message = last
+    `with_tpl`. Signatures `C05:completion-default:setting-lost:<lvl|panic_lvl|tpl>:after=<setters that ran afterwards>`.
 */
 
 #![cfg_attr(miri, feature(stmt_expr_attributes, proc_macro_hygiene))]
@@ -780,6 +803,324 @@ fn check_program(r: &mut Report, p: &Program, seed: u64, index: u64) {
     if r.wants_sample() && has_builder && completes_on.is_some() && index % 11 == 0 {
         let calls = n;
         r.sample(|| json!({"part": "guard", "class": class, "completion_calls": calls, "program": program_json(p)}));
+    }
+}
+
+// ===========================================================================
+// (a') the default completion object through its OWN builders
+// ===========================================================================
+//
+// "No sequence of builder-style modifications ..." + "panic unwinding, which adds an error and the panic
+// level": `completion::default(emitter, ctxt)` is put through `with_lvl / with_panic_lvl / with_tpl`
+// 0-5 times in any order (the level type `L` is `emit::Level` or a `&str`), handed to a guard at
+// `SpanGuard::new`, by `with_completion` or by `complete_with`, by value / by reference / type-erased,
+// and the span then ends by drop, by an explicit complete, or by PANIC unwinding (the guard dropped by
+// the unwinding, or completed with the object from a destructor that runs during the unwinding).
+// Oracle: exactly one event behind the object; every setting has its LAST-SET value whatever other
+// setters ran afterwards: `lvl` = last `with_lvl` (none if never set) and no `err` on a normal end;
+// `lvl` = last `with_panic_lvl` (error if never set) and `err` = panicked on a panic end; template and
+// rendered message = last `with_tpl` (the span's own "{span_name} completed" if never set).
+
+#[derive(Clone, Copy, Debug, PartialEq, Eq, Hash)]
+enum DSet {
+    Lvl(usize),
+    PanicLvl(usize),
+    Tpl(usize),
+}
+
+impl DSet {
+    fn kind(self) -> &'static str {
+        match self {
+            DSet::Lvl(_) => "with_lvl",
+            DSet::PanicLvl(_) => "with_panic_lvl",
+            DSet::Tpl(_) => "with_tpl",
+        }
+    }
+}
+
+#[derive(Clone, Copy, Debug, PartialEq, Eq, Hash)]
+enum DInstall {
+    AtNew,
+    WithCompletion,
+    CompleteWith,
+}
+
+#[derive(Clone, Copy, Debug, PartialEq, Eq, Hash)]
+enum DExit {
+    Drop,
+    Complete,
+    /// the guard is dropped by unwinding (`CompleteWith`: a destructor that runs during the unwinding
+    /// calls `guard.complete_with(object)`)
+    Panic,
+}
+
+#[derive(Clone, Copy, Debug, PartialEq, Eq, Hash)]
+enum DHand {
+    Value,
+    Ref,
+    Erased,
+}
+
+#[derive(Clone, Debug, PartialEq, Eq, Hash)]
+struct DCase {
+    setters: Vec<DSet>,
+    str_levels: bool,
+    install: DInstall,
+    exit: DExit,
+    hand: DHand,
+    start_first: bool,
+}
+
+const D_LEVELS: [emit::Level; 4] = [emit::Level::Debug, emit::Level::Info, emit::Level::Warn, emit::Level::Error];
+const D_LEVEL_NAMES: [&str; 4] = ["debug", "info", "warn", "error"];
+const D_STR_LEVELS: [&str; 4] = ["lvl-a", "lvl-b", "lvl-c", "error"];
+const D_NAME: &str = "d span";
+
+const D_TPL0: &[emit::template::Part<'static>] = &[emit::template::Part::text("tpl zero")];
+const D_TPL1: &[emit::template::Part<'static>] = &[emit::template::Part::text("done "), emit::template::Part::hole("a")];
+const D_TPL2: &[emit::template::Part<'static>] = &[emit::template::Part::hole("span_name"), emit::template::Part::text(" is over")];
+
+fn d_tpl(i: usize) -> emit::Template<'static> {
+    emit::Template::new(match i {
+        0 => D_TPL0,
+        1 => D_TPL1,
+        _ => D_TPL2,
+    })
+}
+
+fn d_msg(i: Option<usize>) -> String {
+    match i {
+        None => format!("{} completed", D_NAME),
+        Some(0) => "tpl zero".to_string(),
+        Some(1) => "done 1".to_string(),
+        Some(_) => format!("{} is over", D_NAME),
+    }
+}
+
+fn gen_dcase(g: &mut Rng) -> DCase {
+    let n = g.usize(6);
+    let setters = (0..n)
+        .map(|_| match g.below(3) {
+            0 => DSet::Lvl(g.usize(4)),
+            1 => DSet::PanicLvl(g.usize(4)),
+            _ => DSet::Tpl(g.usize(3)),
+        })
+        .collect();
+    let install = *g.pick(&[DInstall::AtNew, DInstall::WithCompletion, DInstall::CompleteWith]);
+    let exit = if install == DInstall::CompleteWith { *g.pick(&[DExit::Complete, DExit::Panic]) } else { *g.pick(&[DExit::Drop, DExit::Complete, DExit::Panic, DExit::Panic]) };
+    DCase { setters, str_levels: g.chance(1, 3), install, exit, hand: *g.pick(&[DHand::Value, DHand::Ref, DHand::Erased]), start_first: g.bool() }
+}
+
+fn d_build<'c, L: emit::value::ToValue + Copy>(rec: &Recorder, ctxt: &'c ThreadLocalCtxt, setters: &[DSet], table: [L; 4]) -> completion::Default<'static, Recorder, &'c ThreadLocalCtxt, L> {
+    let mut c = completion::Default::new(rec.clone(), ctxt);
+    for s in setters {
+        c = match *s {
+            DSet::Lvl(i) => c.with_lvl(table[i]),
+            DSet::PanicLvl(i) => c.with_panic_lvl(table[i]),
+            DSet::Tpl(i) => c.with_tpl(d_tpl(i)),
+        };
+    }
+    c
+}
+
+struct CompleteOnDrop<'a, F: Completion>(Option<SpanGuard<'static, FakeClock, &'a PropSet, &'a completion::FromEmitter<Recorder>>>, Option<F>);
+
+impl<'a, F: Completion> Drop for CompleteOnDrop<'a, F> {
+    fn drop(&mut self) {
+        if let (Some(g), Some(c)) = (self.0.take(), self.1.take()) {
+            let _ = g.complete_with(c);
+        }
+    }
+}
+
+fn d_run<F: Completion>(c: F, case: &DCase, ctxt: &ThreadLocalCtxt, other_rec: &Recorder) -> Result<Option<bool>, String> {
+    let rng = CountingRng::new();
+    let clock = FakeClock::new(1_000_000_000_000);
+    clock.set_step(1_000);
+    let other = completion::from_emitter(other_rec.clone());
+    let props = PropSet(vec![("a", 1)]);
+    let yes = filter::from_fn(|_| true);
+    let exit = case.exit;
+    let start_first = case.start_first;
+    catch(|| match case.install {
+        DInstall::AtNew => {
+            let (mut g, frame) = SpanGuard::new(&yes, ctxt, clock.clone(), &rng, c, ("ctxt_prop", 7), Path::new_raw("m0"), D_NAME, &props);
+            frame.call(move || {
+                g.start();
+                match exit {
+                    DExit::Drop => {
+                        drop(g);
+                        None
+                    }
+                    DExit::Complete => Some(g.complete()),
+                    DExit::Panic => {
+                        let _g = g;
+                        panic!("boom")
+                    }
+                }
+            })
+        }
+        DInstall::WithCompletion => {
+            let (mut g, frame) = SpanGuard::new(&yes, ctxt, clock.clone(), &rng, &other, ("ctxt_prop", 7), Path::new_raw("m0"), D_NAME, &props);
+            frame.call(move || {
+                if start_first {
+                    g.start();
+                }
+                let mut g = g.with_completion(c);
+                if !start_first {
+                    g.start();
+                }
+                match exit {
+                    DExit::Drop => {
+                        drop(g);
+                        None
+                    }
+                    DExit::Complete => Some(g.complete()),
+                    DExit::Panic => {
+                        let _g = g;
+                        panic!("boom")
+                    }
+                }
+            })
+        }
+        DInstall::CompleteWith => {
+            let (mut g, frame) = SpanGuard::new(&yes, ctxt, clock.clone(), &rng, &other, ("ctxt_prop", 7), Path::new_raw("m0"), D_NAME, &props);
+            frame.call(move || {
+                g.start();
+                match exit {
+                    DExit::Panic => {
+                        let _d = CompleteOnDrop(Some(g), Some(c));
+                        panic!("boom")
+                    }
+                    _ => Some(g.complete_with(c)),
+                }
+            })
+        }
+    })
+}
+
+fn d_hand<L: emit::value::ToValue + Copy>(case: &DCase, table: [L; 4], rec: &Recorder, other_rec: &Recorder) -> Result<Option<bool>, String> {
+    let ctxt = ThreadLocalCtxt::shared();
+    let c = d_build(rec, &ctxt, &case.setters, table);
+    match case.hand {
+        DHand::Value => d_run(c, case, &ctxt, other_rec),
+        DHand::Ref => d_run(&c, case, &ctxt, other_rec),
+        DHand::Erased => d_run(&c as &dyn ErasedCompletion, case, &ctxt, other_rec),
+    }
+}
+
+fn dcase_json(c: &DCase) -> Json {
+    json!({"setters": c.setters.iter().map(|s| format!("{:?}", s)).collect::<Vec<_>>(), "level_type": if c.str_levels { "&str" } else { "emit::Level" },
+           "install": format!("{:?}", c.install), "exit": format!("{:?}", c.exit), "handed": format!("{:?}", c.hand), "start_before_with_completion": c.start_first})
+}
+
+fn check_dcase(r: &mut Report, c: &DCase, seed: u64, index: u64) {
+    r.eval();
+    let rec = Recorder::new();
+    let other_rec = Recorder::new();
+    let outcome = if c.str_levels { d_hand(c, D_STR_LEVELS, &rec, &other_rec) } else { d_hand(c, D_LEVELS, &rec, &other_rec) };
+    let events = rec.take();
+    let other_events = other_rec.take();
+    let case = || {
+        json!({"part": "completion-default", "seed": seed, "index": index, "case": dcase_json(c), "outcome": format!("{:?}", outcome),
+               "events": events.iter().map(|e| e.to_json()).collect::<Vec<_>>(), "events_at_the_replaced_completion": other_events.len()})
+    };
+    r.observe("completion-default:cases", 1);
+    r.observe(&format!("completion-default:exit:{:?}", c.exit), 1);
+    r.observe(&format!("completion-default:install:{:?}:{:?}", c.install, c.hand), 1);
+    r.observe(&format!("completion-default:setters:{}", c.setters.len()), 1);
+    r.observe("completion-default:events", events.len() as u64);
+    if !c.setters.is_empty() {
+        r.nontrivial(&("completion-default", c));
+    }
+    let names = if c.str_levels { D_STR_LEVELS } else { D_LEVEL_NAMES };
+    let tag = format!("{:?}:{:?}", c.install, c.exit).to_lowercase();
+    if outcome.is_err() != (c.exit == DExit::Panic) {
+        r.violation(&format!("C05:completion-default:unexpected-panic:{}", tag), &format!("outcome {:?}", outcome), case());
+        return;
+    }
+    if events.len() != 1 || !other_events.is_empty() {
+        r.violation(
+            &format!("C05:completion-default:completions-{}-replaced-{}:{}", events.len().min(9), other_events.len().min(9), tag),
+            &format!("{} event(s) behind the default completion object (expected 1), {} behind the completion it replaced (expected 0)", events.len(), other_events.len()),
+            case(),
+        );
+        return;
+    }
+    if c.exit == DExit::Complete && outcome != Ok(Some(true)) {
+        r.violation(&format!("C05:completion-default:complete-returned-false:{}", tag), &format!("outcome {:?}", outcome), case());
+    }
+    let e = &events[0];
+    // last-set values and what ran after them
+    let last = |pick: &dyn Fn(DSet) -> Option<usize>| -> (Option<usize>, String) {
+        let mut value = None;
+        let mut after: Vec<&'static str> = Vec::new();
+        for s in &c.setters {
+            match pick(*s) {
+                Some(v) => {
+                    value = Some(v);
+                    after.clear();
+                }
+                None => {
+                    if !after.contains(&s.kind()) {
+                        after.push(s.kind());
+                    }
+                }
+            }
+        }
+        let after = if value.is_none() { "never-set".to_string() } else if after.is_empty() { "nothing".to_string() } else { after.join("+") };
+        (value, after)
+    };
+    let (lvl, lvl_after) = last(&|s| if let DSet::Lvl(i) = s { Some(i) } else { None });
+    let (plvl, plvl_after) = last(&|s| if let DSet::PanicLvl(i) = s { Some(i) } else { None });
+    let (tpl, tpl_after) = last(&|s| if let DSet::Tpl(i) = s { Some(i) } else { None });
+    let lost = |setting: &str, after: &str| {
+        if after == "never-set" {
+            format!("C05:completion-default:setting-invented:{}", setting)
+        } else {
+            format!("C05:completion-default:setting-lost:{}:after={}", setting, after)
+        }
+    };
+    if c.exit == DExit::Panic {
+        let want = plvl.map(|i| names[i]).unwrap_or("error");
+        if e.get("lvl") != Some(want) {
+            r.violation(&lost("panic_lvl", &plvl_after), &format!("the span ended by panic unwinding: lvl={:?}, the last with_panic_lvl set {:?} (error when never set)", e.get("lvl"), want), case());
+        }
+        if e.get("err") != Some("panicked") {
+            r.violation(&format!("C05:completion-default:panic-without-err:{}", tag), &format!("the span ended by panic unwinding: err={:?}", e.get("err")), case());
+        }
+    } else {
+        let want = lvl.map(|i| names[i]);
+        if e.get("lvl") != want {
+            r.violation(&lost("lvl", &lvl_after), &format!("lvl={:?}, the last with_lvl set {:?}", e.get("lvl"), want), case());
+        }
+        if e.get("err").is_some() {
+            r.violation(&format!("C05:completion-default:err-without-panic:{}", tag), &format!("err={:?} on a span that did not end by a panic", e.get("err")), case());
+        }
+    }
+    let want_tpl = tpl.map(|i| d_tpl(i).to_string()).unwrap_or_else(|| "{span_name} completed".to_string());
+    if e.tpl != want_tpl || e.msg != d_msg(tpl) {
+        r.violation(&lost("tpl", &tpl_after), &format!("template {:?} rendered as {:?}, the last with_tpl set {:?} (rendered {:?})", e.tpl, e.msg, want_tpl, d_msg(tpl)), case());
+    }
+    // the span itself
+    let mut wrong: Vec<(&str, String)> = Vec::new();
+    if e.get("span_name") != Some(D_NAME) || e.get("evt_kind") != Some("span") || e.mdl != "m0" {
+        wrong.push(("name-kind-module", format!("span_name={:?} evt_kind={:?} mdl={:?}", e.get("span_name"), e.get("evt_kind"), e.mdl)));
+    }
+    if e.get("a") != Some("1") || e.get("ctxt_prop") != Some("7") {
+        wrong.push(("props", format!("a={:?} ctxt_prop={:?}", e.get("a"), e.get("ctxt_prop"))));
+    }
+    if e.get("trace_id").map(|t| t.len()) != Some(32) || e.get("span_id").map(|t| t.len()) != Some(16) || e.get("span_parent").is_some() {
+        wrong.push(("ids", format!("trace_id={:?} span_id={:?} span_parent={:?}", e.get("trace_id"), e.get("span_id"), e.get("span_parent"))));
+    }
+    if !matches!(e.extent, Some((Some(s), end)) if s < end) {
+        wrong.push(("extent", format!("extent={:?} (expected a range)", e.extent)));
+    }
+    for (what, text) in wrong {
+        r.violation(&format!("C05:completion-default:completed-span:{}:{}", what, tag), &text, case());
+    }
+    if r.wants_sample() && c.setters.len() >= 3 && index % 4999 == 0 {
+        r.sample(|| case());
     }
 }
 
@@ -3365,6 +3706,8 @@ enum NRt {
     Generic,
     Slot,
     Setup,
+    /// the context of the runtime is `ThreadLocalCtxt` behind the k-th forwarding wrapper of `WRAPPED_NAMES`
+    Wrapped(usize),
 }
 
 impl NRt {
@@ -3373,8 +3716,81 @@ impl NRt {
             NRt::Generic => "generic-runtime",
             NRt::Slot => "ambient-slot",
             NRt::Setup => "setup-init_slot",
+            NRt::Wrapped(k) => WRAPPED_NAMES[k],
         }
     }
+    /// `:ctxt=<wrapper>` for the signatures of the wrapped runtimes
+    fn sig_suffix(self) -> String {
+        match self {
+            NRt::Wrapped(k) => format!(":ctxt={}", WRAPPED_NAMES[k]),
+            _ => String::new(),
+        }
+    }
+}
+
+// --- the default context held behind the forwarding wrappers the crate offers -------------------
+//
+// Every `Ctxt` method must reach the `ThreadLocalCtxt` underneath (`open_root`, `open_push`,
+// `open_disabled`, `enter`, `with_current`, `exit`, `close`): a wrapper that answers one of them with the
+// trait's provided default instead behaves like a different context. One runtime type
+// (`C = Box<dyn ErasedCtxt>`), built per worker thread, holds each wrapper (and stacks of two) as its
+// erased context, so the chains of (f) run over all of them; (g) below runs a plain nesting over the
+// same wrappers as the STATIC type of the runtime's context.
+
+type DynCtxt = dyn emit::ctxt::ErasedCtxt;
+type DynCtxtSS = dyn emit::ctxt::ErasedCtxt + Send + Sync;
+type WRt = Runtime<TlRecorder, TlFilter, Box<DynCtxt>, FakeClock, CountingRng>;
+
+static W_TL: std::sync::LazyLock<ThreadLocalCtxt> = std::sync::LazyLock::new(ThreadLocalCtxt::new);
+
+const N_WRAPPED: usize = 14;
+const WRAPPED_NAMES: [&str; N_WRAPPED] = [
+    "Box<dyn ErasedCtxt>",
+    "Arc<ThreadLocalCtxt>",
+    "Box<ThreadLocalCtxt>",
+    "Box<dyn ErasedCtxt + Send + Sync>",
+    "Arc<dyn ErasedCtxt + Send + Sync>",
+    "Arc<dyn ErasedCtxt>",
+    "Option<ThreadLocalCtxt>",
+    "&ThreadLocalCtxt",
+    "AssertInternal<ThreadLocalCtxt>",
+    "Arc<Box<ThreadLocalCtxt>>",
+    "Option<Arc<dyn ErasedCtxt + Send + Sync>>",
+    "Box<Arc<AssertInternal<ThreadLocalCtxt>>>",
+    "Arc<Option<Box<dyn ErasedCtxt + Send + Sync>>>",
+    "&Arc<ThreadLocalCtxt>",
+];
+
+fn wrapped_ctxt(k: usize) -> Box<DynCtxt> {
+    use emit::runtime::AssertInternal;
+    use std::sync::Arc;
+    let tl = ThreadLocalCtxt::new;
+    match k {
+        0 => Box::new(tl()),
+        1 => Box::new(Arc::new(tl())),
+        2 => Box::new(Box::new(tl())),
+        3 => Box::new(Box::new(tl()) as Box<DynCtxtSS>),
+        4 => Box::new(Arc::new(tl()) as Arc<DynCtxtSS>),
+        5 => Box::new(Arc::new(tl()) as Arc<DynCtxt>),
+        6 => Box::new(Some(tl())),
+        7 => Box::new(std::sync::LazyLock::force(&W_TL)),
+        8 => Box::new(AssertInternal(tl())),
+        9 => Box::new(Arc::new(Box::new(tl()))),
+        10 => Box::new(Some(Arc::new(tl()) as Arc<DynCtxtSS>)),
+        11 => Box::new(Box::new(Arc::new(AssertInternal(tl())))),
+        12 => Box::new(Arc::new(Some(Box::new(tl()) as Box<DynCtxtSS>))),
+        _ => {
+            let leaked: &'static Arc<ThreadLocalCtxt> = Box::leak(Box::new(Arc::new(tl())));
+            Box::new(leaked)
+        }
+    }
+}
+
+thread_local! {
+    /// per worker thread: one runtime per wrapper (a `Box<dyn ErasedCtxt>` is not `Sync`)
+    static W_RTS: Vec<WRt> = (0..N_WRAPPED)
+        .map(|k| Runtime::build(TlRecorder, TlFilter(false), wrapped_ctxt(k), o_clock(), CountingRng::starting_at((1u64 << 41) + ((k as u64) << 34))))
+        .collect();
 }
 
 #[derive(Clone, Debug, PartialEq, Eq, Hash)]
@@ -3550,11 +3966,13 @@ fn nest_run(c: &NestCase, inv: u32) -> (Result<Vec<String>, String>, Vec<String>
         NRt::Generic => nest_go(&*O_RT, c, inv),
         NRt::Slot => nest_go(O_SLOT.get(), c, inv),
         NRt::Setup => nest_go(N_SLOT.get(), c, inv),
+        NRt::Wrapped(k) => W_RTS.with(|v| nest_go(&v[k], c, inv)),
     });
     let after = match c.rt {
         NRt::Generic => props_of(O_RT.ctxt()),
         NRt::Slot => props_of(O_SLOT.get().ctxt()),
         NRt::Setup => props_of(N_SLOT.get().ctxt()),
+        NRt::Wrapped(k) => W_RTS.with(|v| props_of(v[k].ctxt())),
     };
     (out, after)
 }
@@ -3572,6 +3990,7 @@ fn nest_rts() -> Vec<NRt> {
 /// properties pushed around the whole thing, and with pushes around and between - x exit x runtime.
 fn nest_directed() -> Vec<NestCase> {
     let mut v = Vec::new();
+    let mut rotate = 0usize;
     for is_async in [false, true] {
         let sites: &[NSite] = if is_async { &ASYNC_SITES } else { &SYNC_SITES };
         // (an async chain may end in sync sites)
@@ -3602,6 +4021,9 @@ fn nest_directed() -> Vec<NestCase> {
                                 for rt in nest_rts() {
                                     v.push(NestCase { chain: chain.clone(), min, exit, is_async, rt });
                                 }
+                                // ... and on one of the wrapped contexts, in rotation
+                                v.push(NestCase { chain: chain.clone(), min, exit, is_async, rt: NRt::Wrapped(rotate % N_WRAPPED) });
+                                rotate += 1;
                             }
                         }
                     }
@@ -3645,7 +4067,8 @@ fn gen_nest(g: &mut Rng) -> NestCase {
         _ => NExit::Normal,
     };
     let rts = nest_rts();
-    NestCase { chain, min, exit, is_async, rt: *g.pick(&rts) }
+    let rt = if g.bool() { NRt::Wrapped(g.usize(N_WRAPPED)) } else { *g.pick(&rts) };
+    NestCase { chain, min, exit, is_async, rt }
 }
 
 /// What the one completion event of an enabled span of the chain must carry.
@@ -3746,7 +4169,10 @@ fn check_nest(r: &mut Report, c: &NestCase, seed: u64, index: u64) {
     r.observe(&format!("nest:exit:{:?}:{}", c.exit, if c.is_async { "async" } else { "sync" }), 1);
     r.observe("nest:span-events", events.len() as u64);
     r.nontrivial(&("macro-nest", c));
-    let sig = |class: &str, what: &str| format!("C05:macro:completed-span:{}:{}", class, what);
+    let sig = |class: &str, what: &str| format!("C05:macro:completed-span:{}:{}{}", class, what, c.rt.sig_suffix());
+    if matches!(c.rt, NRt::Wrapped(_)) {
+        r.observe("nest:on-a-wrapped-context", 1);
+    }
 
     if outcome.is_err() != (c.exit == NExit::Panic) {
         r.violation(&sig(case_class, "unexpected-panic"), &format!("outcome {:?}", outcome), case());
@@ -3864,6 +4290,193 @@ fn check_nest(r: &mut Report, c: &NestCase, seed: u64, index: u64) {
     }
 }
 
+// ===========================================================================
+// (g) a plain nesting on runtimes whose context TYPE is a forwarding wrapper
+// ===========================================================================
+//
+// outer (info_span) -> [Frame::push(amb_a)] -> mid (span, guard:) -> inner (debug_span), sync and async,
+// normal / innermost panic, on `Runtime<.., C, ..>` with C = each forwarding wrapper over
+// `ThreadLocalCtxt` (here the macros call the wrapper's own `Ctxt` impl with concrete props types).
+// Per completion event: fresh span id, `span_parent` = the enclosing span, the root's trace id, the
+// frames of the spans above and the ambient property pushed above it; empty context afterwards.
+
+type PRt<C> = Runtime<TlRecorder, TlFilter, C, FakeClock, CountingRng>;
+
+#[emit::info_span(rt: *rt, "p_outer {inv}", inv, at_p_outer: 0)]
+fn p_outer<C: emit::Ctxt>(rt: &PRt<C>, inv: u32, panics: bool, push: bool) {
+    if push {
+        emit::Frame::push(rt.ctxt(), ("amb_a", inv as u64 + 5)).call(|| p_mid(rt, inv, panics))
+    } else {
+        p_mid(rt, inv, panics)
+    }
+}
+
+#[emit::span(rt: *rt, guard: g, "p_mid {inv}", inv, at_p_mid: 1)]
+fn p_mid<C: emit::Ctxt>(rt: &PRt<C>, inv: u32, panics: bool) {
+    p_inner(rt, inv, panics);
+    let _ = g.complete();
+}
+
+#[emit::debug_span(rt: *rt, "p_inner {inv}", inv, at_p_inner: 2)]
+fn p_inner<C: emit::Ctxt>(rt: &PRt<C>, inv: u32, panics: bool) {
+    if panics {
+        panic!("boom");
+    }
+}
+
+#[emit::info_span(rt: *rt, "p_outer {inv}", inv, at_p_outer: 0)]
+async fn p_a_outer<C: emit::Ctxt>(rt: &PRt<C>, inv: u32, panics: bool, push: bool) {
+    YieldNow(false).await;
+    if push {
+        emit::Frame::push(rt.ctxt(), ("amb_a", inv as u64 + 5)).in_future(p_a_mid(rt, inv, panics)).await
+    } else {
+        p_a_mid(rt, inv, panics).await
+    }
+}
+
+#[emit::span(rt: *rt, guard: g, "p_mid {inv}", inv, at_p_mid: 1)]
+async fn p_a_mid<C: emit::Ctxt>(rt: &PRt<C>, inv: u32, panics: bool) {
+    p_a_inner(rt, inv, panics).await;
+    YieldNow(false).await;
+    let _ = g.complete();
+}
+
+#[emit::debug_span(rt: *rt, "p_inner {inv}", inv, at_p_inner: 2)]
+async fn p_a_inner<C: emit::Ctxt>(rt: &PRt<C>, inv: u32, panics: bool) {
+    YieldNow(false).await;
+    if panics {
+        panic!("boom");
+    }
+}
+
+macro_rules! typed_rts {
+    ($( $k:literal, $st:ident, $name:literal, $C:ty, $ctxt:expr; )*) => {
+        $( static $st: std::sync::LazyLock<PRt<$C>> = std::sync::LazyLock::new(|| {
+            Runtime::build(TlRecorder, TlFilter(false), $ctxt, o_clock(), CountingRng::starting_at((1u64 << 42) + ($k << 34)))
+        }); )*
+        const TYPED_NAMES: &[&str] = &[$($name),*];
+        fn check_plain_at(r: &mut Report, k: usize, inv: u32, panics: bool, push: bool, is_async: bool) {
+            match k {
+                $( $k => check_plain(r, &*$st, $name, inv, panics, push, is_async), )*
+                _ => unreachable!(),
+            }
+        }
+    };
+}
+
+typed_rts! {
+    0, P_ARC, "Arc<ThreadLocalCtxt>", std::sync::Arc<ThreadLocalCtxt>, std::sync::Arc::new(ThreadLocalCtxt::new());
+    1, P_BOX, "Box<ThreadLocalCtxt>", Box<ThreadLocalCtxt>, Box::new(ThreadLocalCtxt::new());
+    2, P_BOXDYN, "Box<dyn ErasedCtxt + Send + Sync>", Box<DynCtxtSS>, Box::new(ThreadLocalCtxt::new()) as Box<DynCtxtSS>;
+    3, P_ARCDYN, "Arc<dyn ErasedCtxt + Send + Sync>", std::sync::Arc<DynCtxtSS>, std::sync::Arc::new(ThreadLocalCtxt::new()) as std::sync::Arc<DynCtxtSS>;
+    4, P_OPTION, "Option<ThreadLocalCtxt>", Option<ThreadLocalCtxt>, Some(ThreadLocalCtxt::new());
+    5, P_REF, "&ThreadLocalCtxt", &'static ThreadLocalCtxt, std::sync::LazyLock::force(&W_TL);
+    6, P_ASSERT, "AssertInternal<ThreadLocalCtxt>", emit::runtime::AssertInternal<ThreadLocalCtxt>, emit::runtime::AssertInternal(ThreadLocalCtxt::new());
+    7, P_ARC_BOX, "Arc<Box<ThreadLocalCtxt>>", std::sync::Arc<Box<ThreadLocalCtxt>>, std::sync::Arc::new(Box::new(ThreadLocalCtxt::new()));
+    8, P_OPTION_ARCDYN, "Option<Arc<dyn ErasedCtxt + Send + Sync>>", Option<std::sync::Arc<DynCtxtSS>>, Some(std::sync::Arc::new(ThreadLocalCtxt::new()) as std::sync::Arc<DynCtxtSS>);
+}
+
+fn check_plain<C: emit::Ctxt>(r: &mut Report, rt: &PRt<C>, name: &str, inv: u32, panics: bool, push: bool, is_async: bool) {
+    r.eval();
+    RT_PROBE.with(|p| *p.borrow_mut() = Probe { script: Script::Const(true), calls: Vec::new() });
+    WHEN_PROBE.with(|p| *p.borrow_mut() = Probe { script: Script::Const(true), calls: Vec::new() });
+    O_EVENTS.with(|e| e.borrow_mut().clear());
+    FAULT.with(|f| f.set(None));
+    let outcome = catch(|| {
+        if is_async {
+            block_on(p_a_outer(rt, inv, panics, push))
+        } else {
+            p_outer(rt, inv, panics, push)
+        }
+    });
+    let after = props_of(rt.ctxt());
+    let events = O_EVENTS.with(|e| std::mem::take(&mut *e.borrow_mut()));
+    let case = || {
+        json!({"part": "plain-nest-wrapped", "ctxt": name, "invocation": inv, "panics": panics, "push": push, "async": is_async,
+               "outcome": format!("{:?}", outcome), "ambient_afterwards": after.clone(), "events": events.iter().map(|e| e.to_json()).collect::<Vec<_>>()})
+    };
+    r.observe("plain-nest:cases", 1);
+    r.observe(&format!("plain-nest:ctxt:{}", name), 1);
+    r.observe("plain-nest:span-events", events.len() as u64);
+    r.nontrivial(&("plain-nest-wrapped", name, panics, push, is_async));
+    let sig = |what: &str| format!("C05:macro:completed-span:nested-on-wrapped-ctxt:{}:ctxt={}", what, name);
+    if outcome.is_err() != panics {
+        r.violation(&sig("unexpected-panic"), &format!("outcome {:?}", outcome), case());
+        return;
+    }
+    if !after.is_empty() {
+        r.violation(&sig("ambient-context-not-empty-afterwards"), &format!("ambient properties left behind: {:?}", after), case());
+    }
+    if events.len() != 3 || events.iter().any(|e| e.get("evt_kind") != Some("span")) {
+        r.violation(&sig(&format!("completion-count-{}-of-3", events.len().min(9))), &format!("{} event(s) at the emitter for three nested enabled spans", events.len()), case());
+        return;
+    }
+    // completions arrive innermost first
+    let (inner, mid, outer) = (&events[0], &events[1], &events[2]);
+    let mut wrong: Vec<(&str, String)> = Vec::new();
+    let amb = (inv as u64 + 5).to_string();
+    let rows: [(&Captured, &str, Option<&Captured>, Option<&str>, &[&str], bool); 3] = [
+        (outer, "p_outer {inv}", None, Some("info"), &["at_p_outer"], false),
+        (mid, "p_mid {inv}", Some(outer), None, &["at_p_mid", "at_p_outer"], push),
+        (inner, "p_inner {inv}", Some(mid), Some("debug"), &["at_p_inner", "at_p_mid", "at_p_outer"], push),
+    ];
+    for (e, want_name, parent, lvl, marks, has_amb) in rows {
+        if e.get("span_name") != Some(want_name) || e.get("inv") != Some(inv.to_string().as_str()) {
+            wrong.push(("wrong-name-or-order", format!("span_name={:?} inv={:?}, expected {:?} of invocation {}", e.get("span_name"), e.get("inv"), want_name, inv)));
+        }
+        let (t, sid, p) = (e.get("trace_id"), e.get("span_id"), e.get("span_parent"));
+        if t.map(|t| t.len()) != Some(32) || sid.map(|x| x.len()) != Some(16) {
+            wrong.push(("ids-missing", format!("{}: trace_id={:?} span_id={:?}", want_name, t, sid)));
+        }
+        if t != outer.get("trace_id") {
+            wrong.push(("wrong-trace-id", format!("{}: trace_id={:?}, the root span is in trace {:?}", want_name, t, outer.get("trace_id"))));
+        }
+        if p != parent.and_then(|x| x.get("span_id")) {
+            wrong.push(("wrong-span-parent", format!("{}: span_parent={:?}, the enclosing span has span_id={:?}", want_name, p, parent.and_then(|x| x.get("span_id")))));
+        }
+        if events.iter().filter(|o| o.get("span_id") == sid).count() != 1 {
+            wrong.push(("span-id-not-fresh", format!("{}: span_id={:?} is also the span id of another span of the nesting", want_name, sid)));
+        }
+        if e.get("amb_a") != if has_amb { Some(amb.as_str()) } else { None } {
+            wrong.push((if has_amb { "ambient-props-missing" } else { "ambient-props-stray" }, format!("{}: amb_a={:?} (pushed between outer and mid: {})", want_name, e.get("amb_a"), push)));
+        }
+        let mut got: Vec<&str> = Vec::new();
+        for (k, _, _) in &e.props {
+            if k.starts_with("at_") && !got.contains(&k.as_str()) {
+                got.push(k.as_str());
+            }
+        }
+        got.sort();
+        if got != marks {
+            wrong.push(("wrong-frames-above", format!("{}: span frames visible on the event {:?}, expected {:?}", want_name, got, marks)));
+        }
+        let (want_lvl, want_err) = if panics { (Some("error"), Some("panicked")) } else { (lvl, None) };
+        if e.get("lvl") != want_lvl || e.get("err") != want_err {
+            wrong.push(("wrong-lvl-or-err", format!("{}: lvl={:?} err={:?}, the exit path calls for {:?} / {:?}", want_name, e.get("lvl"), e.get("err"), want_lvl, want_err)));
+        }
+        if !matches!(e.extent, Some((Some(s), end)) if s < end) {
+            wrong.push(("wrong-extent", format!("{}: extent={:?} (expected a range)", want_name, e.extent)));
+        }
+    }
+    for (what, text) in wrong {
+        r.violation(&sig(what), &text, case());
+    }
+}
+
+fn plain_jobs() -> Vec<(usize, bool, bool, bool)> {
+    let mut v = Vec::new();
+    for k in 0..TYPED_NAMES.len() {
+        for panics in [false, true] {
+            for push in [false, true] {
+                for is_async in [false, true] {
+                    v.push((k, panics, push, is_async));
+                }
+            }
+        }
+    }
+    v
+}
+
 fn main() {
     let args = Args::parse();
     let mut r = Report::new(
@@ -3871,7 +4484,8 @@ fn main() {
         &args,
         "one evaluation = one guard program (a seeded SpanGuard operation sequence under a filter and a clock script) or one invocation of a hand-written macro form with one exit path; \
          non-trivial = distinct (filter outcome, in/out of frame, operation-kind sequence, clock-movement sequence) tuples with at least one builder operation, plus distinct (form, exit path, enabled) triples, \
-         plus distinct guard programs with a panicking / re-entrant completion, distinct (site, exit path, runtime, fault of the emitter / custom completion) tuples and distinct chains of nested span sites (sites, enabled / rejected, pushes, exit, runtime)",
+         plus distinct guard programs with a panicking / re-entrant completion, distinct (site, exit path, runtime, fault of the emitter / custom completion) tuples and distinct chains of nested span sites (sites, enabled / rejected, pushes, exit, runtime incl. the wrapped contexts), \
+         distinct (wrapper type, exit, push, sync / async) plain nestings, and distinct builder sequences on the default completion object x hand-over x exit",
     );
 
     init_once_runtimes();
@@ -3900,6 +4514,12 @@ fn main() {
             let p = gen_fault_program(&mut Rng::stream(seed, &[5, 2, index]));
             check_fault_program(&mut r, &p, seed, index);
             check_fault_program(&mut r, &p, seed, index);
+        } else if case.get("part").and_then(|v| v.as_str()) == Some("completion-default") {
+            let seed = case.get("seed").and_then(|v| v.as_u64()).unwrap_or(args.seed);
+            let index = case.get("index").and_then(|v| v.as_u64()).unwrap_or(0);
+            let c = gen_dcase(&mut Rng::stream(seed, &[5, 6, index]));
+            check_dcase(&mut r, &c, seed, index);
+            check_dcase(&mut r, &c, seed, index);
         } else if case.get("part").and_then(|v| v.as_str()) == Some("macro-nest") {
             let seed = case.get("seed").and_then(|v| v.as_u64()).unwrap_or(args.seed);
             let index = case.get("index").and_then(|v| v.as_u64()).unwrap_or(0);
@@ -3910,6 +4530,15 @@ fn main() {
             };
             check_nest(&mut r, &c, seed, index);
             check_nest(&mut r, &c, seed, index);
+        } else if case.get("part").and_then(|v| v.as_str()) == Some("plain-nest-wrapped") {
+            let name = case.get("ctxt").and_then(|v| v.as_str()).unwrap_or("");
+            let flag = |k: &str| case.get(k).and_then(|v| v.as_bool()).unwrap_or(false);
+            for (k, panics, push, is_async) in plain_jobs() {
+                if TYPED_NAMES[k] == name && panics == flag("panics") && push == flag("push") && is_async == flag("async") {
+                    check_plain_at(&mut r, k, 1, panics, push, is_async);
+                    check_plain_at(&mut r, k, 2, panics, push, is_async);
+                }
+            }
         } else if case.get("part").and_then(|v| v.as_str()) == Some("macro-fault") {
             let text = |k: &str| case.get(k).and_then(|v| v.as_str()).unwrap_or("").to_string();
             let all = once_forms();
@@ -3968,6 +4597,13 @@ fn main() {
         let mut g = Rng::stream(seed, &[5, 1, i]);
         let p = gen_program(&mut g);
         check_program(r, &p, seed, i);
+    });
+
+    // (a') the default completion object through its own builders
+    let nd0 = if cfg!(miri) { args.get_u64("default_builder_programs", 24) } else { args.n(30_000, 300_000) };
+    par_cases(&mut r, &args, nd0, |i, r| {
+        let c = gen_dcase(&mut Rng::stream(seed, &[5, 6, i]));
+        check_dcase(r, &c, seed, i);
     });
 
     // (b) macro forms: every form x exit path x enabled, a few rounds (ids / clocks differ per round)
@@ -4058,6 +4694,20 @@ fn main() {
         check_nest(r, &c, seed, i);
     });
     r.set("nest_directed_cases", json!(directed.len()));
+
+    // (g) a plain nesting on runtimes whose context type is a forwarding wrapper
+    let pjobs = plain_jobs();
+    let prounds = if cfg!(miri) { 1 } else { args.n(20, 200) };
+    par_cases(&mut r, &args, pjobs.len() as u64 * prounds, |i, r| {
+        // under Miri an eighth of the jobs per run, rotating with the seed
+        if cfg!(miri) && (i + seed) % 8 != 0 {
+            return;
+        }
+        let (k, panics, push, is_async) = pjobs[(i % pjobs.len() as u64) as usize];
+        check_plain_at(r, k, i as u32 + 1, panics, push, is_async);
+    });
+    r.set("wrapped_ctxt_types", json!(TYPED_NAMES));
+    r.set("wrapped_ctxts_behind_box_dyn", json!(WRAPPED_NAMES));
 
     std::process::exit(r.finish());
 }
